@@ -32,6 +32,11 @@ CONSTANTS Mods,        \* module names
           BatchSizes,  \* values offered to m_mod_set_batch_size
           UnstashNs,   \* values offered to m_mod_unstash
           HandlerIds,  \* handlers offered to m_mod_become
+          Kinds,       \* source kinds offered to register / deregister: subset of {"fd", "tmr", "sgn", "path", "pid", "task", "thr"}
+          Keys,        \* identifying values per kind (small integers; the driver maps them to descriptors, periods, signals, ...)
+          SrcOpts,     \* option records [os |-> oneshot, ac |-> autoclose] offered at registration
+          MaxBatch,    \* at most this many events in one poll batch
+          Errnos,      \* errno values a callback may leave behind (SetErrno)
           Targets,     \* modules on which subscribe / batch / stash / become / state setters are offered in this configuration
           AutoVals,    \* auto-free flag values offered to the send calls
           Senders,     \* modules that issue tell / publish / broadcast / pill in this configuration
@@ -61,7 +66,8 @@ RegSeq(s) == SelectSeq(Order, LAMBDA m : m \in Registered(s))
 
 \* old: object of a released context; subs: set of [pat, pr] (priority "L" | "N" | "H"), one per pattern;
 \* bq/blen: events held back by batching and the configured batch size; stash; hs: handlers installed with become (top first)
-Mod0 == [st |-> "none", reg |-> FALSE, old |-> FALSE, fl |-> {}, pipe |-> <<>>, subs |-> {}, bq |-> <<>>, blen |-> 0, stash |-> <<>>, hs |-> <<>>]
+\* src: registered sources, a set of [k, key, os, ac] with at most one element per (k, key)
+Mod0 == [st |-> "none", reg |-> FALSE, old |-> FALSE, fl |-> {}, src |-> {}, pipe |-> <<>>, subs |-> {}, bq |-> <<>>, blen |-> 0, stash |-> <<>>, hs |-> <<>>]
 NewMod(m, i) == [Mod0 EXCEPT !.st = "idle", !.reg = TRUE, !.fl = Flags[m][i]]
 Init0 == [ctx |-> [st |-> "none", quit |-> FALSE, qcode |-> 0, fin |-> FALSE],
           run |-> 0,
@@ -69,7 +75,11 @@ Init0 == [ctx |-> [st |-> "none", quit |-> FALSE, qcode |-> 0, fin |-> FALSE],
           stack |-> <<>>,
           cur |-> NoMod,
           ret |-> 0,
-          pay |-> [p \in 1..MaxPay |-> [st |-> "unused", copies |-> 0, auto |-> FALSE]]]
+          pay |-> [p \in 1..MaxPay |-> [st |-> "unused", copies |-> 0, auto |-> FALSE]],
+          rdy |-> {},                                  \* user descriptors (fd keys) that are readable
+          due |-> {},                                  \* <<module, key>>: timers that expired and were not consumed yet
+          ufd |-> [f \in Keys |-> "open"],             \* user descriptors: "open" | "closed" (closed by the library: auto-close)
+          errno |-> 0]
 \* canned set-ups (the driver executes the same public calls before every program and checks it arrived here):
 \*  "loop2" / "loop3": context registered, all modules registered, first dispatch done (loop started, modules RUNNING)
 Running0(m) == [Mod0 EXCEPT !.st = "running", !.reg = TRUE, !.fl = Flags[m][1]]
@@ -83,6 +93,11 @@ Init == S = InitOf(Setup)
 \* a message copy in a mailbox / handed to a handler
 \* pr: priority of the subscription that matched at send time ("N" for direct tell / broadcast); ud: that subscription's pattern ("" = none)
 Msg(p, from, topic, sys) == [p |-> p, from |-> from, topic |-> topic, sys |-> sys, pr |-> "N", ud |-> ""]
+
+HasSrc(s, m, k, key) == \E x \in s.mod[m].src : x.k = k /\ x.key = key
+SrcOf(s, m, k, key) == CHOOSE x \in s.mod[m].src : x.k = k /\ x.key = key
+\* the event of a descriptor / timer source: no payload, the topic field carries "F<key>" / "T<key>", userdata = the key
+SrcEvt(k, key) == [p |-> 0, from |-> IF k = "fd" THEN "fd" ELSE "tmr", topic |-> "", sys |-> FALSE, pr |-> "N", ud |-> key]
 
 \* one copy of payload p disappears (delivered-and-released, discarded, or never written)
 Release1(pay, p) ==
@@ -146,7 +161,18 @@ EnterCb(s, m, kind, evs) == [Push(s, CbFrame(s, m, kind, evs)) EXCEPT !.cur = m]
 ReleaseCtx(s) == [s EXCEPT !.ctx.st = "none", !.mod = [x \in Mods |-> [s.mod[x] EXCEPT !.old = (s.mod[x].st # "none")]]]
 
 \* reset_module(): what stop() clears
+\* descriptors registered with auto-close are closed when their source goes away
+\* ("closing": the source is gone but an event / poll-batch entry still references it; the descriptor is closed when that goes)
+CloseAc(ufd, srcs) == [f \in Keys |-> IF \E x \in srcs : x.k = "fd" /\ x.key = f /\ x.ac THEN "closing" ELSE ufd[f]]
+Holds(s, f) == \E i \in 1..Len(s.stack) :
+                  \/ (s.stack[i].k = "evt2" /\ \E j \in 1..Len(s.stack[i].ev) : s.stack[i].ev[j].from = "fd" /\ s.stack[i].ev[j].ud = f)
+                  \/ (s.stack[i].k = "batch" /\ \E j \in 1..Len(s.stack[i].b) : s.stack[i].b[j][2] = "fd" /\ s.stack[i].b[j][3] = f)
+Settle(s) == LET u == [f \in Keys |-> IF s.ufd[f] = "closing" /\ ~Holds(s, f) THEN "closed" ELSE s.ufd[f]]
+             IN [s EXCEPT !.ufd = u, !.rdy = {f \in s.rdy : u[f] # "closed"}]
+DropDue(due, m) == {d \in due : d[1] # m}
 ResetMod(s, m) == [s EXCEPT !.pay = ReleaseAll(ReleaseAll(s.pay, s.mod[m].bq), s.mod[m].stash),
+                             !.ufd = CloseAc(s.ufd, s.mod[m].src),
+                             !.mod[m].src = {}, !.due = DropDue(s.due, m),
                              !.mod[m].subs = {}, !.mod[m].bq = <<>>, !.mod[m].blen = 0, !.mod[m].stash = <<>>, !.mod[m].hs = <<>>]
 
 \* one step of library code for the frame on top of the stack (never called with a "cb" frame on top)
@@ -171,6 +197,7 @@ Step(s) ==
                 s1 == [r EXCEPT !.pay = ReleaseAll(r.pay, discard),
                                 !.mod[m].pipe = IF f.a THEN <<>> ELSE r.mod[m].pipe,
                                 !.run = IF r.mod[m].st = "running" THEN r.run - 1 ELSE r.run,
+                                !.due = DropDue(r.due, m),                             \* its timers are disarmed (re-armed from scratch on resume)
                                 !.mod[m].st = IF f.a THEN "stopped" ELSE "paused"]
             IN IF ~f.a THEN Ret(Sys(s1, "MOD_STOPPED", m), 0)
                ELSE LET s2 == ResetMod(s1, m) IN
@@ -212,17 +239,28 @@ Step(s) ==
             IF f.b = <<>>
               THEN IF f.a > 0 THEN Push(Push(r, Fr("retval", NoMod, f.a, 0)), Fr("evalpass", NoMod, 0, RegSeq(r)))
                               ELSE Ret(r, 0)
-            ELSE LET x == Head(f.b)
+            ELSE LET e == Head(f.b)
                      rest == Push(r, [f EXCEPT !.b = Tail(f.b), !.a = f.a + 1])
-                 IN \* an event of a module's mailbox: read ONE message.  An event whose module left RUNNING earlier in this
-                    \* same batch is not handed over (C03: "only while that module is RUNNING"); it stays pending.
-                    IF r.mod[x].st # "running" \/ r.mod[x].pipe = <<>> THEN Push(r, [f EXCEPT !.b = Tail(f.b)])
-                    ELSE
-                    LET msg == Head(r.mod[x].pipe)
-                        s1 == [rest EXCEPT !.mod[x].pipe = Tail(r.mod[x].pipe)]
-                    IN IF msg.topic = "PILL"
-                         THEN Push([s1 EXCEPT !.pay = Release1(s1.pay, msg.p)], Fr("stop", x, TRUE, 0))
-                         ELSE PushEvt(s1, x, msg)
+                 IN \* An event whose module left RUNNING earlier in this same batch (or whose source is gone) is not handed
+                    \* over (C03: "only while that module is RUNNING"); it stays pending.
+                    LET x == e[1] IN
+                    IF r.mod[x].st # "running" THEN Push(r, [f EXCEPT !.b = Tail(f.b)])
+                    ELSE IF e[2] = "ps" THEN
+                       \* a module's mailbox: read ONE message
+                       IF r.mod[x].pipe = <<>> THEN Push(r, [f EXCEPT !.b = Tail(f.b)])
+                       ELSE LET msg == Head(r.mod[x].pipe)
+                                s1 == [rest EXCEPT !.mod[x].pipe = Tail(r.mod[x].pipe)]
+                            IN IF msg.topic = "PILL"
+                                 THEN Push([s1 EXCEPT !.pay = Release1(s1.pay, msg.p)], Fr("stop", x, TRUE, 0))
+                                 ELSE PushEvt(s1, x, msg)
+                    ELSE IF ~HasSrc(r, x, e[2], e[3]) THEN Push(r, [f EXCEPT !.b = Tail(f.b)])
+                    ELSE LET src == SrcOf(r, x, e[2], e[3])
+                             \* a one-shot source fires once and is then no longer registered (an auto-close descriptor is closed
+                             \* when its event is released; modelled at once); an expired timer is consumed
+                             s1 == [rest EXCEPT !.mod[x].src = IF src.os THEN @ \ {src} ELSE @,
+                                                !.due = IF e[2] = "tmr" THEN @ \ {<<x, e[3]>>} ELSE @]
+                             ev == [SrcEvt(e[2], e[3]) EXCEPT !.pr = IF e[2] = "fd" THEN "H" ELSE "N"]
+                         IN PushEvt(s1, x, ev)
       [] f.k = "evt2" ->         \* after the handler: the events of that invocation are released
             [r EXCEPT !.pay = ReleaseAll(r.pay, f.ev)]
       [] f.k = "lstop" ->        \* loop_stop(): IDLE, "loop stopped" notification, flush of every mailbox
@@ -261,9 +299,10 @@ Step(s) ==
             Ret([r EXCEPT !.mod[m] = NewMod(m, f.a)], 0)
 
 RECURSIVE Run(_)
-Run(s) == IF s.stack = <<>> THEN s
-          ELSE IF Top(s).k = "cb" THEN s
-          ELSE Run(Step(s))
+Run(s0) == LET s == Settle(s0) IN
+           IF s.stack = <<>> THEN s
+           ELSE IF Top(s).k = "cb" THEN s
+           ELSE Run(Step(s))
 
 (* ------------------------------ who may call what ------------------------------ *)
 CbDepth(st) == Len(SelectSeq(st, LAMBDA f : f.k = "cb"))
@@ -294,13 +333,16 @@ CtxQuit(c) == /\ Can("CtxQuit")
               /\ IF NoCtx \/ S.ctx.st # "looping" THEN Refuse(NEG)
                  ELSE Do([S EXCEPT !.ctx.quit = TRUE, !.ctx.qcode = c, !.ret = 0])
 
-\* sources that would be reported ready by the poll: mailboxes of RUNNING modules holding a message
-Ready(s) == {m \in Mods : s.mod[m].st = "running" /\ s.mod[m].pipe # <<>>}
+\* sources the poll reports ready: <<m, "ps", 0>> mailbox of a RUNNING module holding a message; <<m, "fd", f>> a registered
+\* descriptor that is readable; <<m, "tmr", key>> an expired timer - always of RUNNING modules only (others are not polled)
+Ready(s) == {<<m, "ps", 0>> : m \in {x \in Mods : s.mod[x].st = "running" /\ s.mod[x].pipe # <<>>}}
+            \cup {e \in Mods \X {"fd"} \X Keys : s.mod[e[1]].st = "running" /\ HasSrc(s, e[1], "fd", e[3]) /\ e[3] \in s.rdy}
+            \cup {e \in Mods \X {"tmr"} \X Keys : s.mod[e[1]].st = "running" /\ HasSrc(s, e[1], "tmr", e[3]) /\ <<e[1], e[3]>> \in s.due}
 IsPerm(b, T) == Len(b) = Cardinality(T) /\ {b[i] : i \in 1..Len(b)} = T
 Batches(s) == IF Ready(s) = {} THEN {<<>>}
-              ELSE UNION {{b \in [1..Cardinality(T) -> T] : IsPerm(b, T)} : T \in (SUBSET Ready(s)) \ {{}}}
-
-AllBatches == UNION {{b \in [1..Cardinality(T) -> T] : IsPerm(b, T)} : T \in SUBSET Mods}
+              ELSE UNION {{b \in [1..Cardinality(T) -> T] : IsPerm(b, T)} : T \in {U \in (SUBSET Ready(s)) \ {{}} : Cardinality(U) <= MaxBatch}}
+AllEvents == (Mods \X {"ps"} \X {0}) \cup (Mods \X {"fd", "tmr"} \X Keys)
+AllBatches == UNION {{b \in [1..Cardinality(T) -> T] : IsPerm(b, T)} : T \in {U \in SUBSET AllEvents : Cardinality(U) <= MaxBatch}}
 \* m_ctx_dispatch(): start / deliver one poll batch b / stop
 Dispatch(b) == /\ Can("Dispatch") /\ AtTop
                /\ IF NoCtx THEN b = <<>> /\ Refuse(NEG)
@@ -414,6 +456,37 @@ Unbecome(m) ==
     /\ IF ModRefused(m) \/ S.mod[m].st # "running" \/ S.mod[m].hs = <<>> THEN Refuse(NEG)
        ELSE Do([S EXCEPT !.mod[m].hs = Tail(@), !.ret = 0])
 
+(* ------------------------------ event sources ------------------------------ *)
+\* register_mod_src(): a key that is present is refused with EEXIST (and nothing else happens: in particular an auto-close
+\* descriptor is not closed); task sources cannot be deregistered
+SrcRegister(m, k, key, o) ==
+    /\ Can("SrcRegister") /\ Handle(m) /\ m \in Targets /\ k \in Kinds /\ key \in Keys /\ o \in SrcOpts
+    /\ (k = "fd" => S.ufd[key] = "open") /\ (k # "fd" => ~o.ac)
+    /\ (k = "fd" => \A x \in Mods \ {m} : ~HasSrc(S, x, "fd", key))       \* (precondition: one owner per user descriptor)
+    /\ IF ModRefused(m) THEN Refuse(NEG)
+       ELSE IF HasSrc(S, m, k, key) THEN Refuse(EEXIST)
+       ELSE Do([S EXCEPT !.mod[m].src = @ \cup {[k |-> k, key |-> key, os |-> (o.os \/ k \in {"task", "thr"}), ac |-> o.ac]}, !.ret = 0])
+
+SrcDeregister(m, k, key) ==
+    /\ Can("SrcDeregister") /\ Handle(m) /\ m \in Targets /\ k \in Kinds /\ key \in Keys
+    /\ IF ModRefused(m) \/ k = "task" \/ ~HasSrc(S, m, k, key) THEN Refuse(NEG)
+       ELSE LET src == SrcOf(S, m, k, key) IN
+            Do([S EXCEPT !.mod[m].src = @ \ {src}, !.ufd = CloseAc(S.ufd, {src}),
+                         !.due = IF k = "tmr" THEN @ \ {<<m, key>>} ELSE @, !.ret = 0])
+
+\* environment: a user descriptor becomes readable / is drained / a closed one is replaced by a fresh one; a timer expires
+FdReady(f) == /\ Can("FdReady") /\ AtTop /\ f \in Keys /\ S.ufd[f] = "open" /\ f \notin S.rdy
+              /\ S' = [S EXCEPT !.rdy = @ \cup {f}]
+FdDrain(f) == /\ Can("FdDrain") /\ f \in S.rdy
+              /\ S' = [S EXCEPT !.rdy = @ \ {f}]
+FdReopen(f) == /\ Can("FdReopen") /\ AtTop /\ f \in Keys /\ S.ufd[f] = "closed"
+               /\ S' = [S EXCEPT !.ufd[f] = "open"]
+TmrFire(m, key) == /\ Can("TmrFire") /\ AtTop /\ key \in Keys /\ S.mod[m].st = "running" /\ HasSrc(S, m, "tmr", key) /\ <<m, key>> \notin S.due
+                   /\ S' = [S EXCEPT !.due = @ \cup {<<m, key>>}]
+\* a callback (or the program) leaves a value in errno: no effect on anything the library does
+SetErrno(v) == /\ Can("SetErrno") /\ v \in Errnos /\ S.errno # v
+               /\ S' = [S EXCEPT !.errno = v]
+
 (* ------------------------------ leaving a callback ------------------------------ *)
 \* v: the callback's answer (on_eval / on_start: BOOLEAN; others: TRUE)
 CbReturn(v) ==
@@ -438,6 +511,9 @@ Next == \/ CtxRegister \/ CtxDeregister \/ CtxFinalize
                            \/ \E n \in UnstashNs : Unstash(m, n)
                            \/ \E h \in HandlerIds : Become(m, h)
                            \/ Unbecome(m)
+        \/ \E m \in Mods, k \in Kinds, key \in Keys : SrcDeregister(m, k, key) \/ \E o \in SrcOpts : SrcRegister(m, k, key, o)
+        \/ \E f \in Keys : FdReady(f) \/ FdDrain(f) \/ FdReopen(f) \/ \E m \in Mods : TmrFire(m, f)
+        \/ \E v \in Errnos : SetErrno(v)
         \/ \E v \in BOOLEAN : CbReturn(v)
 Spec == Init /\ [][Next]_vars
 
@@ -478,6 +554,12 @@ C13_HeldBackForAReason == Quiescent => \A m \in Mods :
                              (\A i \in 1..Len(q) : q[i].pr # "H") /\
                              ((\E i \in 1..Len(q) : q[i].pr = "N") =>
                                   LET j == CHOOSE i \in 1..Len(q) : q[i].pr = "N" /\ \A k \in (i+1)..Len(q) : q[k].pr # "N" IN TRUE)
+\* C09: at most one source per (kind, key)
+C09_KeyedSet == \A m \in Mods : \A x, y \in S.mod[m].src : (x.k = y.k /\ x.key = y.key) => x = y
+\* C09/C20: sources exist only up to the stop of their module
+C09_DroppedOnStop == \A m \in Mods : S.mod[m].st \in {"zombie", "none"} => S.mod[m].src = {}
+\* C20: a descriptor is closed by the library only through auto-close; one that is registered is open
+C20_RegisteredOpen == \A m \in Mods : \A x \in S.mod[m].src : x.k = "fd" => S.ufd[x.key] = "open"
 \* C16: high priority events are never stashed
 C16_NoHighStashed == \A m \in Mods : \A i \in 1..Len(S.mod[m].stash) : S.mod[m].stash[i].pr # "H"
 \* state constraint for the pub/sub configuration: keep the population of registered-but-never-started modules small
